@@ -218,18 +218,18 @@ func init() {
 		Rule: "texts: 20 hand-written token-class texts, line-aligned windows (<=200 bytes) of every tests/*.zy script that parse completely, generated programs (plain and with whitespace/comment noise) and infix renderings. " +
 			"(a) chunk invariance: every single cut position of every text exhaustively, every pair of cuts for texts <=40 (quick) / <=80 (thorough) bytes, and 3-6 random cuts: the expression list and error kind after the last piece must equal those of the whole text; " +
 			"(b) pause correctness: an intermediate ParseTokens must report more-input iff a bracket/string/raw-string/block-comment classifier says the delivered prefix is unfinished, and never a hard error; " +
-			"(c) history independence: after histories of 1-4 earlier loads (complete texts ending in every rune class, lexer errors mid-token, unbalanced closers, unfinished then abandoned input, evaluated or only parsed) the interpreter's own parser and EvalString must read a probe text exactly like a fresh interpreter; " +
+			"(c) history independence: after histories of 1-4 earlier loads (complete texts ending in every rune class, lexer errors mid-token, unbalanced closers, unfinished then abandoned input, evaluated or only parsed) the interpreter's own parser and EvalString must read a probe text exactly like a fresh interpreter; the same after loading and abandoning EVERY prefix of three token-rich texts (stopping the lexer inside escapes, exponents, multi-rune operators, comment openers, raw strings), each followed by 18 rich probes; " +
 			"(d) last token: a text ending in an atom without trailing whitespace must give the same expressions as the text plus a newline. non-trivial = distinct (text, kind) whose text has >=2 top-level expressions or a nested bracket",
 		Assumptions: []string{
 			"(b) is judged only at cut positions the 60-line prefix classifier models with certainty (not inside char literals, not at a lone trailing '/', not inside a line comment)",
 			"only texts that are complete and valid as a whole are cut",
 		},
 		NCases: func(c *core.Ctx) int {
-			return 4*len(c13Texts(c)) + thorN(c, 1500, 20000)
+			return 4*len(c13Texts(c)) + thorN(c, 1500, 20000) + c13PrefixCases()
 		},
 		Chunk:    100,
 		Sanitize: true,
-		MustSee:  []string{"single_cuts", "double_cuts", "pause_decisions", "history_probes", "last_token_probes"},
+		MustSee:  []string{"single_cuts", "double_cuts", "pause_decisions", "history_probes", "last_token_probes", "abandoned_prefix_histories"},
 		Run:      c13Run,
 	})
 }
@@ -265,6 +265,9 @@ func c13Run(c *core.Ctx, i int) *core.Result {
 	texts := c13Texts(c)
 	nt := len(texts)
 	res := &core.Result{}
+	if i >= 4*nt+thorN(c, 1500, 20000) {
+		return c13PrefixHistory(c, i-4*nt-thorN(c, 1500, 20000))
+	}
 	if i >= 4*nt {
 		return c13History(c, i, texts)
 	}
@@ -524,6 +527,65 @@ func c13History(c *core.Ctx, i int, texts []string) *core.Result {
 		res.Ev("history_eval_probes", 1)
 		if x != y {
 			res.Violate("history-changes-evaluation:"+c13ProbeClass(probe), fmt.Sprintf("a fresh interpreter evaluates %q to %s; after the history to %s", probe, OutStr(b), OutStr(a)), res.Input)
+		}
+	}
+	return res
+}
+
+// Abandoned-prefix histories: token-rich texts cut at EVERY byte position; the prefix is loaded
+// (it may stop the lexer in any of its sub-states: inside an escape, an exponent, a multi-rune
+// operator, a comment opener …) and abandoned; then every rich probe must read as in a fresh interpreter.
+var c13Rich = []string{
+	"(f \"a\\x41\\u00e9\\U0001F600\\n\\t\\\\\" '\\x42' 'c' '\\n' 1.5e-3 -2.5E+7 0x1F 0o17 0b101 12ULL 1_000 a.b.c k: ~@(x) ^(y ~z) %q `raw text` {p := -1} /* c */ ; // d\n",
+	"{a := b[1:2] ** -3 ; h.x.y += 0x1f ; if a <= b { c-- } else { c++ } ; for i := 0; i < 3; i++ { s = s + \"\\u0041\" } ; x -> y}\n",
+	"(def s \"tab\\there \\\"q\\\" \\x4a\") [1 -2 +3 -Inf +Inf NaN 1e5 .5 1.] (quote (a \\ b)) #lazy 'é' '\\'' \"\" `` (fn [x & r] x) p.q: $ ? -x\n",
+}
+
+var c13RichProbes = []string{
+	"\"\\x41\"\n", "'\\x41' \n", "\"\\u00e9\\U0001F600\"\n", "'\\n' \n", "\"a\\tb\"\n", "0x1F \n", "1.5e3 \n", "-2.5E-7 \n", "a.b.c \n", "k: \n", "^(a ~@(b) ~c)\n", "(a := 3)\n", "12ULL \n", "`raw`\n", "{x ** 2 -> y}\n", "-1 \n", "+Inf \n", "'c' \n",
+}
+
+func c13PrefixCases() int {
+	n := 0
+	for _, t := range c13Rich {
+		n += len(t)
+	}
+	return n
+}
+
+func c13PrefixHistory(c *core.Ctx, k int) *core.Result {
+	ti := 0
+	for k >= len(c13Rich[ti]) {
+		k -= len(c13Rich[ti])
+		ti++
+	}
+	prefix := c13Rich[ti][:k+1]
+	res := &core.Result{Nontrivial: true, Input: fmt.Sprintf("abandoned prefix %q, then the rich probes", prefix)}
+	res.Hash = core.HashOf(res.Input)
+	for _, viaEval := range []bool{false, true} {
+		for _, twice := range []bool{false, true} {
+			env := zygo.NewZlisp()
+			load := func(t string) {
+				if viaEval {
+					sut.Eval(env, t, 100000)
+				} else {
+					c13EnvParse(env, t)
+				}
+			}
+			load(prefix)
+			if twice { // a second abandoned text on top of the first
+				load(c13Rich[(ti+1)%len(c13Rich)][:1+k%len(c13Rich[(ti+1)%len(c13Rich)])])
+			}
+			for _, probe := range c13RichProbes {
+				fresh := zygo.NewZlisp()
+				got, want := c13EnvParse(env, probe), c13EnvParse(fresh, probe)
+				res.Evals += 2
+				res.Ev("abandoned_prefix_histories", 1)
+				if got != want {
+					res.Violate("history-changes-parse:after-abandoned-prefix", fmt.Sprintf("a fresh interpreter reads %q as [%s]; after loading and abandoning the prefix %q (via %s) it reads [%s]", probe, want, prefix, map[bool]string{true: "EvalString", false: "the interpreter's parser"}[viaEval], got), res.Input)
+					return res
+				}
+			}
 		}
 	}
 	return res
